@@ -80,6 +80,12 @@ class Check(PropertyCheck):
         kind = ["instance", "jobseq", "jobseq", "immut"][i % 4]
         if kind == "instance":
             family, jobs = gen.gen_instance(rng, max_jobs=4, max_ops=4)
+            if rng.random() < 0.12:
+                # durations beyond 2**24 (and beyond 2**53): every view except the float32 padded array is exact integer
+                # arithmetic
+                big = rng.choice([2 ** 24 + 1, 50_000_001, 2 ** 31 + 7, 2 ** 53 + 1])
+                jobs = [[(ms, d + (big if rng.random() < 0.6 else 0)) for ms, d in job] for job in jobs]
+                family += "+huge"
             lines = ["new", instance_line(jobs), "views", "dict", "taillard"]
             return Scenario(lines, {"kind": kind, "family": family, "flexible": gen.is_flexible(jobs)})
         if kind == "immut":
